@@ -603,3 +603,27 @@ func mustRead(p string) []byte {
 	}
 	return b
 }
+
+var (
+	reQuoted = regexp.MustCompile("\"[^\"]*\"|'[^']*'|`[^`]*`")
+	reNum    = regexp.MustCompile(`-?\d+(\.\d+)?`)
+	reIdent  = regexp.MustCompile(`\b[a-zA-Z_][\w]*(\.[\w]+)+\b`)
+	reSpace  = regexp.MustCompile(`\s+`)
+)
+
+// ErrClass collapses an error message into a coarse class for finding keys:
+// quoted text, numbers and dotted identifiers are replaced by placeholders.
+func ErrClass(err error) string {
+	if err == nil {
+		return "nil"
+	}
+	s := err.Error()
+	s = reQuoted.ReplaceAllString(s, "Q")
+	s = reIdent.ReplaceAllString(s, "ID")
+	s = reNum.ReplaceAllString(s, "N")
+	s = reSpace.ReplaceAllString(s, " ")
+	if len(s) > 90 {
+		s = s[:90]
+	}
+	return s
+}
